@@ -56,6 +56,13 @@ def make_cases(tier, rng):
             e1 = g.est(rng, d, nopeer="dial_only")
             e2 = dict(g.est(rng, d, "accept_first", gap=300, start=5400), id=e1["id"])
             add(pair, [e1, e2, g.est(rng, d, gap=0, start=6000)], "redial")
+    # one number accepted as an id on both sides at once (each side's NextId starts at 1), then dialled from both sides
+    for pair in ["inproc", "process"]:
+        for k in range(1 if tier == "quick" else 4):
+            e1 = g.est(rng, "h2p", "accept_first", gap=rng.choice([600, 900]), start=0)
+            e2 = dict(g.est(rng, "p2h", "accept_first", gap=rng.choice([600, 900]), start=rng.choice([50, 150])), id=e1["id"])
+            ests = [e1, e2] if k % 2 == 0 else [e2, e1]
+            add(pair, ests + [g.est(rng, start=1800)], "same-number-both-ways")
     # unmatched peers followed by fresh pairs (the gRPC half of C09)
     for _ in range(1 if tier == "quick" else 6):
         ests = [g.est(rng, nopeer="dial_only"), g.est(rng, nopeer="accept_only"), g.est(rng, start=200), g.est(rng, start=5600)]
